@@ -261,6 +261,18 @@ def run(pid, tier):
             r = tlc.run("NodeFlowMC.tla", qcfg, workers=8, timeout=300, extra_files={qcfg: nf_cfg([q], "MC_AddrsSmall", 3, 2, 2, 1)})
             ctx.add_tlc("NodeFlowMC/" + qcfg, r, note="quirk model must violate " + inv); tlc.cleanup(r)
             if r.violation != inv: ctx.infra_fail("quirk %s did not produce the expected counterexample (%s)" % (q, r.violation))
+    if pid in ("C03", "C04"):
+        # liveness (infinite behaviours, weak fairness): a held message is eventually handed over unless the node is stalled
+        # again first; the pinned code's expiry handling must produce the stranded lasso (non-vacuity)
+        live = open(tlc.SPEC + "/NodeFlowLive.cfg").read().replace('Q = {"SendNoExpiry"}', "Q = {}")
+        if not thorough: live = live.replace("MaxHeld = 2", "MaxHeld = 1")
+        r = tlc.run("NodeFlowLive.tla", "_lv.cfg", workers=16, timeout=1800, extra_files={"_lv.cfg": live})
+        ctx.add_tlc("NodeFlowLive Q={} (PROPERTY HeldEventuallySent under weak fairness)", r); tlc.cleanup(r)
+        if r.violation: ctx.infra_fail("NodeFlowLive violates %s with Q={}: specification defect" % r.violation)
+        elif r.error: ctx.infra_fail("NodeFlowLive: " + r.error[:600])
+        r = tlc.run("NodeFlowLive.tla", "_lq.cfg", workers=8, timeout=600, extra_files={"_lq.cfg": live.replace("Q = {}", 'Q = {"PinnedExpiry"}')})
+        ctx.add_tlc("NodeFlowLive Q={PinnedExpiry}", r, note="the pinned code must strand a held message (lasso)"); tlc.cleanup(r)
+        if r.violation != "HeldEventuallySent": ctx.infra_fail("NodeFlowLive with PinnedExpiry did not produce the stranded lasso (%s %s)" % (r.violation, (r.error or "")[:300]))
     mc_cases = []
     if pid == "C18":
         r = tlc.run("LowLevelMC.tla", "LowLevelMC.cfg", workers=1, timeout=900)
